@@ -373,7 +373,7 @@ def fam_around(mi, rnd, tier):
         for i, c in enumerate(calls):
             if c[0] not in ('ab', 'aa'):
                 continue
-            for kind in [('Ag', 'veto_g'), ('Aa', 'veto_a'), 'Ai']:
+            for kind in [('Ag', 'veto_g'), ('Aa', 'veto_a'), 'Ai', ('Ag', ''), ('Aa', '')]:
                 for dyn in ([True, False] if mi.dynamic else [False]):
                     plc = PL()
                     st, d2 = start_ops(mi, rnd, dyn)
@@ -678,6 +678,25 @@ def mutants(rnd, d):
     for k in ('name', 'initial', 'states'):
         out.append(('missing_' + k, [en for en in d if en[0] != k]))
     out.append(('missing_everything', []))       # `state_machine! {}`
+    if evs:
+        for (lvl, key) in (('t', 'payload'), ('t', 'transition'), ('t', 'initial'), ('e', 'from'), ('e', 'to'), ('e', 'states'), ('e', 'initial')):
+            ne = [(n, list(es)) for (n, es) in evs]
+            i = rnd.randrange(len(ne))
+            if lvl == 'e':
+                ne[i][1].insert(rnd.randint(0, len(ne[i][1])), ('unknown', key))
+                out.append(('misplaced_key_event_' + key, _set(d, 'events', ne)))
+            else:
+                trs = [j for j, e in enumerate(ne[i][1]) if e[0] == 'transition']
+                if trs:
+                    j = rnd.choice(trs)
+                    t = list(ne[i][1][j][1])
+                    t.insert(rnd.randint(0, len(t)), ('unknown', key))
+                    ne[i][1][j] = ('transition', t)
+                    out.append(('misplaced_key_transition_' + key, _set(d, 'events', ne)))
+        for key in ('guards', 'payload', 'from', 'transition'):
+            nd = list(d)
+            nd.insert(rnd.randint(0, len(nd)), ('unknown', key))
+            out.append(('misplaced_key_top_' + key, nd))
     # 2 unknown keys at four levels
     pos = rnd.randint(0, len(d))
     out.append(('unknown_top', d[:pos] + [('unknown', 'frobnicate')] + d[pos:]))
@@ -948,8 +967,8 @@ def fixtures():
             ('leaf', 'A2', None)]),
         ('leaf', 'I1', None), ('leaf', 'J1', None), ('leaf', 'K1', None)]
     big_events = [
-        _ev('big', _tr(['G1', 'L3'], 'L4', guards=['bg5', 'bg6'], unless=['bu4', 'bu5'], before=['bb5', 'bb6', 'bb7'], after=['ba5', 'ba6'], around=['bw4', 'bw5']),
-            payload='P', guards=['bg1', 'bg2', 'bg3', 'bg4'], unless=['bu1', 'bu2', 'bu3'], before=['bb1', 'bb2', 'bb3', 'bb4'],
+        _ev('big', _tr(['G1', 'L3'], 'L4', guards=['bg6', 'bg7', 'bg8', 'bg9'], unless=['bu6', 'bu7', 'bu8', 'bu9'], before=['bb5', 'bb6', 'bb7'], after=['ba5', 'ba6'], around=['bw4', 'bw5']),
+            payload='P', guards=['bg1', 'bg2', 'bg3', 'bg4', 'bg5'], unless=['bu1', 'bu2', 'bu3', 'bu4', 'bu5'], before=['bb1', 'bb2', 'bb3', 'bb4'],
             after=['ba1', 'ba2', 'ba3', 'ba4'], around=['bw1', 'bw2', 'bw3']),
         _ev('e1', _tr(['G1'], 'H1')), _ev('e2', _tr(['H1'], 'I1')), _ev('e3', _tr(['I1'], 'J1')), _ev('e4', _tr(['J1'], 'K1')),
         _ev('e5', _tr(['K1'], 'L1')), _ev('e6', _tr(['L1'], 'G1')), _ev('e7', _tr(['L5'], 'A2'), _tr(['A2', 'B1'], 'L5')),
